@@ -17,7 +17,7 @@ import (
 func init() { drivers["C07"] = driveC07 }
 
 type codecIn struct {
-	Codec string  `json:"codec"` // g6 | s6 | mc | prufer | pruferdec | mcmulti | s6huge
+	Codec string  `json:"codec"` // g6 | s6 | mc | prufer | pruferdec | mcmulti | g6huge | s6huge
 	G     gJ      `json:"g"`
 	Gs    []gJ    `json:"gs"`
 	Code  []int   `json:"code"`
@@ -32,8 +32,8 @@ func (in codecIn) key() string {
 		return fmt.Sprintf("pruferdec(%v)", in.Code)
 	case "mcmulti":
 		return fmt.Sprintf("mcmulti(%v)", in.Gs)
-	case "s6huge":
-		return fmt.Sprintf("s6huge(n=%d,%v)", in.N, in.Pairs)
+	case "s6huge", "g6huge":
+		return fmt.Sprintf("%s(n=%d,%v)", in.Codec, in.N, in.Pairs)
 	}
 	e := fmt.Sprint(in.G.E)
 	if len(e) > 120 {
@@ -56,7 +56,63 @@ func decEvent(f func() (graph.Graph, error)) tr.E {
 	return tr.E{"res": r, "err": false, "obs": o}
 }
 
+// runHuge: graphs with thousands of vertices and a few edges (the 4-byte and 8-byte size headers). The string is too long to ship for
+// graph6: its header, its length and the decoded graph's size and adjacency at the listed pairs and at a few other pairs are logged.
+func runHuge(w *tr.W, in codecIn) {
+	n := in.N
+	var hdr []int
+	var full []int
+	total := 0
+	dn, dm := -1, -1
+	at, off := []bool{}, []bool{}
+	derr := false
+	probes := [][]int{{0, 1}, {1, 2}, {0, n - 1}, {n - 2, n - 1}, {n / 2, n/2 + 1}}
+	res := obs.SafeT(60e9, func() {
+		g := graph.NewSparse(n, nil)
+		for _, p := range in.Pairs {
+			g.AddEdge(p[0], p[1])
+		}
+		var s string
+		var d graph.Graph
+		var err error
+		if in.Codec == "g6huge" {
+			s = graph.Graph6Encode(g)
+			d, err = graph.Graph6Decode(s)
+		} else {
+			s = graph.Sparse6Encode(g)
+			d, err = graph.Sparse6Decode(s)
+			full = bytesJ(s)
+		}
+		total = len(s)
+		k := 9
+		if len(s) < k {
+			k = len(s)
+		}
+		hdr = bytesJ(s[:k])
+		if err != nil || d == nil {
+			derr = true
+			return
+		}
+		dn, dm = d.N(), d.M()
+		for _, p := range in.Pairs {
+			at = append(at, dn == n && d.IsEdge(p[0], p[1]) && d.IsEdge(p[1], p[0]))
+		}
+		for _, p := range probes {
+			off = append(off, dn == n && p[0] >= 0 && p[1] < n && p[0] != p[1] && d.IsEdge(p[0], p[1]))
+		}
+	})
+	if full == nil {
+		full = []int{}
+	}
+	w.Emit(tr.E{"ev": "Codec", "codec": in.Codec, "n": n, "pairs": in.Pairs, "probes": probes, "hdr": hdr, "len": total, "enc": full,
+		"dn": dn, "dm": dm, "derr": derr, "at": at, "off": off, "res": res, "nt": true})
+}
+
 func runCodec(w *tr.W, in codecIn) {
+	if in.Codec == "g6huge" || in.Codec == "s6huge" {
+		runHuge(w, in)
+		return
+	}
 	if in.G.E == nil {
 		in.G.E = []int{}
 	}
@@ -237,6 +293,18 @@ func codecGrid(c *Ctx) []codecIn {
 			gs = append(gs, randGraphJ(r, n, 0.5))
 		}
 		add(codecIn{Codec: "mcmulti", Gs: gs})
+	}
+	// sizes around the boundaries of the size header: 62/63 (1 -> 4 bytes), 4095/4096 (top sextet of the 4-byte header),
+	// 258047/258048 (4 -> 8 bytes, sparse6 only: a graph6 string of that size would have 33 10^9 bits)
+	for _, n := range []int{62, 63, 64, 4095, 4096, 4097, 5000} {
+		pairs := [][]int{{0, 1}, {0, n - 1}, {n / 2, n - 2}, {n - 2, n - 1}}
+		add(codecIn{Codec: "g6huge", N: n, Pairs: pairs})
+		add(codecIn{Codec: "s6huge", N: n, Pairs: pairs})
+		add(codecIn{Codec: "s6huge", N: n, Pairs: [][]int{}})
+	}
+	for _, n := range []int{258047, 258048, 258049, 262143} { // the specification reads declared sizes below 2^18 only
+		add(codecIn{Codec: "s6huge", N: n, Pairs: [][]int{{0, 1}, {5, n - 1}, {n - 2, n - 1}}})
+		add(codecIn{Codec: "s6huge", N: n, Pairs: [][]int{{1, n - 2}}})
 	}
 	return out
 }
